@@ -1562,7 +1562,7 @@ func c20Establish(kind int, chunk int) (cli, srv *gmtls.Conn, a, b *c20Conn, err
 
 func c20TLSConn(r *rng, g, iters int) string {
 	fail := func(why string) string { return "ORACLE-FAIL:" + why + ":tlsconn" }
-	kind := r.intn(3)
+	kind := r.pick([]int{0, 0, 1, 2}) // GMSSL CBC (every Write is two records), GMSSL GCM, TLS 1.2
 	chunk := r.pick([]int{0, 0, 13, 1000})
 	seed := r.u64()
 	cli, srv, a, b, err := c20Establish(kind, chunk)
@@ -1863,6 +1863,9 @@ func genC20(r *rng, tier string, emit func(string)) {
 		n := calls[name].quick
 		if thorough {
 			n = calls[name].thorough
+		}
+		if name == "tlsconfig" && n/g < 2 {
+			return 2 // a second connection per goroutine: the session cache and the tickets get used
 		}
 		if n/g < 1 {
 			return 1
